@@ -469,3 +469,164 @@ theorem ae_refines_core_commit (absE : Entry → RP.Entry) (cf : Cfg) (d : Durab
   rw [key _ hout, hcommit, List.length_map]
 
 end SV
+
+namespace SV
+
+/-! ## the crash between `DeleteRange` and `StoreLogs` (`stage = 0` of the cluster model) -/
+
+/-- the cluster model's truncation-only half of the merge, on indexed entries -/
+def truncIdx : List Entry → List Entry → List Entry
+  | suf, [] => suf
+  | [], _ => []
+  | x :: suf, e :: es => if x.term = e.term then x :: truncIdx suf es else []
+
+theorem map_truncIdx (absE : Entry → RP.Entry) (ht : ∀ e, (absE e).term = e.term) (suf es : List Entry) :
+    (truncIdx suf es).map absE = RP.truncSuffix (suf.map absE) (es.map absE) := by
+  induction suf generalizing es with
+  | nil => cases es <;> simp [truncIdx, RP.truncSuffix]
+  | cons x xs ih =>
+    cases es with
+    | nil => simp [truncIdx, RP.truncSuffix]
+    | cons e rest =>
+      simp only [truncIdx, List.map_cons, RP.truncSuffix, ht]
+      split
+      · simp [ih]
+      · simp
+
+/-- what the scan's verdict leaves if the process dies after the truncation, before the store -/
+def logAfterTruncation (r : Option Nat × List Entry) (last : Nat) (l : List Entry) : List Entry :=
+  match r.1 with
+  | some ci => l.filter (fun e => ¬ (ci ≤ e.index ∧ e.index ≤ last))
+  | none => l
+
+/-- **the truncation.**  On the log 1..n with the sent entries numbered from `p + 1`: dying between
+    the `DeleteRange` and the `StoreLogs` leaves `take p ++ truncIdx (drop p) entries` — the stored
+    entries up to the first conflict, nothing of the request. -/
+theorem scan_is_truncation (l : List Entry) (hl : Contig 1 l) (es : List Entry) (p : Nat) (hp : p ≤ l.length)
+    (hes : Contig (p + 1) es) :
+    ∃ r, scanEntries l l.length 0 es = some r ∧ logAfterTruncation r l.length l = l.take p ++ truncIdx (l.drop p) es := by
+  induction es generalizing p with
+  | nil =>
+    refine ⟨(none, []), rfl, ?_⟩
+    have hm : truncIdx (l.drop p) [] = l.drop p := by cases l.drop p <;> rfl
+    simp [logAfterTruncation, hm]
+  | cons e rest ih =>
+    have he : e.index = p + 1 := hes.head
+    unfold scanEntries
+    have h0 : ¬ e.index ≤ 0 := by omega
+    rw [if_neg h0]
+    by_cases hend : e.index > l.length
+    · rw [if_pos hend]
+      have hpl : p = l.length := by omega
+      refine ⟨(none, e :: rest), rfl, ?_⟩
+      subst hpl
+      simp [logAfterTruncation, truncIdx]
+    · rw [if_neg hend]
+      have hpl : p < l.length := by omega
+      have hget : getLog l e.index = some l[p] := by
+        have := getLog_contig hl p hpl
+        rw [he, show p + 1 = 1 + p by omega]; exact this
+      rw [hget]
+      simp only []
+      have hdrop : l.drop p = l[p] :: l.drop (p + 1) := (List.drop_eq_getElem_cons hpl)
+      by_cases hterm : e.term ≠ l[p].term
+      · rw [if_pos hterm]
+        refine ⟨(some e.index, e :: rest), rfl, ?_⟩
+        simp only [logAfterTruncation]
+        rw [he, filter_contig l hl (p + 1) (by omega)]
+        simp only [Nat.add_sub_cancel]
+        rw [hdrop]
+        simp only [truncIdx]
+        rw [if_neg (fun h => hterm h.symm)]
+        simp
+      · rw [if_neg hterm]
+        obtain ⟨r, hr, hlog⟩ := ih (p + 1) (by omega) hes.tail
+        refine ⟨r, hr, ?_⟩
+        rw [hlog, hdrop]
+        simp only [truncIdx]
+        have : l[p].term = e.term := (Decidable.not_not.mp hterm).symm
+        rw [if_pos this]
+        have ht : l.take (p + 1) = l.take p ++ [l[p]] := by
+          rw [List.take_succ, List.getElem?_eq_getElem hpl]; rfl
+        rw [ht, List.append_assoc]; rfl
+
+end SV
+
+namespace SV
+
+/-- the writes of the entries part when there is something to store: everything before the final
+    `StoreLogs` leaves the log truncated from the conflict (if any) and otherwise untouched -/
+theorem aeBody_writes_before_store (cf : Cfg) (d : Durable) (v : Vol) (a : AEReq) (pre : List (Write × Res)) (v2 : Vol)
+    (t1 : Nat) (l : List Entry) (hpre : ∀ w ∈ pre.map (·.1), ∀ l, w.onLog l = l)
+    (c : Option Nat) (newE : List Entry) (hne : newE ≠ [])
+    (hscan : scanEntries d.log v2.lastLogIdx v2.snapIdx a.entries = some (c, newE)) (he : a.entries ≠ []) :
+    ∃ ws, (aeBody cf d v a pre v2 t1).writes = ws ++ [.storeLogs newE] ∧
+      ws.foldl (fun l w => w.onLog l) l = logAfterTruncation (c, newE) v2.lastLogIdx l := by
+  unfold aeBody Plan.writes
+  rw [if_neg he, hscan]
+  simp only []
+  cases c with
+  | none =>
+    simp only [Bool.not_true, Bool.false_eq_true, if_false, if_neg hne, aeFinish_steps]
+    refine ⟨pre.map (·.1) ++ (if cf.restoreCommitted then [Write.stage (min a.commit (lastOf newE ⟨0, 0, 0, 0, []⟩).index)] else []), ?_, ?_⟩
+    · split <;> simp [List.map_append]
+    · simp only [List.foldl_append, logAfterTruncation]
+      rw [foldl_noeffect _ _ hpre]
+      split <;> simp [Write.onLog]
+  | some ci =>
+    simp only [reloadable, if_true, Bool.not_true, Bool.false_eq_true, if_false, if_neg hne, aeFinish_steps]
+    refine ⟨pre.map (·.1) ++ [Write.deleteRange ci v2.lastLogIdx] ++
+        (if cf.restoreCommitted then [Write.stage (min a.commit (lastOf newE ⟨0, 0, 0, 0, []⟩).index)] else []), ?_, ?_⟩
+    · split <;> simp [List.map_append]
+    · simp only [List.foldl_append, logAfterTruncation, List.foldl_cons, List.foldl_nil]
+      rw [foldl_noeffect _ _ hpre]
+      split <;> simp [Write.onLog]
+
+/-- **Refinement, AppendEntries: the crash point.**  If the stepped handler dies after everything
+    it writes before the final `StoreLogs` (the truncation has happened, the new entries have not been
+    stored), the log it leaves behind is the log of `RP.handleAE … stage = 0`:
+    `take prev ++ truncSuffix (drop prev) entries`. -/
+theorem ae_crash_refines_core (absE : Entry → RP.Entry) (ht : ∀ e, (absE e).term = e.term)
+    (cf : Cfg) (d : Durable) (v : Vol) (a : AEReq) (nd : RP.Node)
+    (h : CoreFrag d v) (hents : Contig (a.prevIdx + 1) a.entries)
+    (hterm : nd.term = v.term) (hlog : nd.log = d.log.map absE) (hbase : nd.base = 0)
+    (hlt : ¬ a.term < v.term) (hprev : aePrevOk d (aeVol2 v a) a = some true) (he : a.entries ≠ [])
+    (c : Option Nat) (newE : List Entry) (hne : newE ≠ [])
+    (hscan : scanEntries d.log d.log.length 0 a.entries = some (c, newE)) :
+    ∃ ws, (aePlan cf d v a).writes = ws ++ [.storeLogs newE] ∧
+      (applyAll d ws).log.map absE =
+        (RP.handleAE nd a.term a.prevIdx a.prevTerm (a.entries.map absE) a.commit 0).1.log := by
+  have hv2 : (aeVol2 v a).lastLogIdx = d.log.length ∧ (aeVol2 v a).snapIdx = 0 := by
+    unfold aeVol2; simp only []; split <;> exact ⟨h.lastIdx, h.snap⟩
+  rw [aePlan_eq_body cf d v a hlt hprev]
+  obtain ⟨ws, hw, hl⟩ := aeBody_writes_before_store cf d v a (aePre v a) (aeVol2 v a) (aeVol2 v a).term d.log
+    (aePre_no_log_effect v a) c newE hne (by rw [hv2.1, hv2.2]; exact hscan) he
+  refine ⟨ws, hw, ?_⟩
+  rw [applyAll_log, hl, hv2.1]
+  have hcore := (prevOk_core absE ht d v a h).mp hprev
+  have hp : a.prevIdx ≤ d.log.length := by
+    by_cases h0 : a.prevIdx = 0
+    · omega
+    · have : ¬ d.log.length < a.prevIdx := fun hh => hcore ⟨h0, Or.inl hh⟩
+      omega
+  obtain ⟨rs, hscan', htr⟩ := scan_is_truncation d.log h.contig a.entries a.prevIdx hp hents
+  rw [hscan] at hscan'
+  simp only [Option.some.injEq] at hscan'
+  subst hscan'
+  rw [htr, List.map_append, map_truncIdx absE ht, List.map_take, List.map_drop]
+  -- the cluster model's side
+  have hnlt : ¬ a.term < nd.term := by omega
+  unfold RP.handleAE
+  rw [if_neg hnlt]
+  simp only []
+  have hb : ∀ (x : RP.Node), x.base = 0 → ¬ a.prevIdx < x.base := fun x hx => by omega
+  split
+  · rename_i hd
+    rw [if_neg (hb _ (by simp [hbase]))]
+    simp only [hlog, List.length_map]
+    rw [if_neg hcore]
+  · rw [if_neg (hb _ hbase)]
+    simp only [hlog, List.length_map]
+    rw [if_neg hcore]
+
+end SV
